@@ -30,3 +30,18 @@ def splice_qbft(src, out):
     os.makedirs(os.path.dirname(out), exist_ok=True)
     open(out, "w").write(s)
     return out
+
+
+def splice_k1memo(src, out):
+    """Route k1util's two calls into the secp256k1 library (ecdsa.RecoverCompact / ecdsa.SignCompact, both pure and
+    deterministic - RFC 6979) through memoising wrappers defined in harness/app/k1util/zz_verif_k1memo.go. Nothing of
+    charon's own code is bypassed; the memo only spares re-running the curve arithmetic for byte-identical arguments."""
+    import os
+    s = open(src).read()
+    a, b = "ecdsa.RecoverCompact(sig, hash)", "ecdsa.SignCompact(key, hash, false)"
+    if s.count(a) != 1 or s.count(b) != 1:
+        return None
+    s = s.replace(a, "verifRecoverCompact(sig, hash)").replace(b, "verifSignCompact(key, hash, false)")
+    os.makedirs(os.path.dirname(out), exist_ok=True)
+    open(out, "w").write(s)
+    return out
